@@ -94,3 +94,16 @@ inline bool hasRulelessState(const ref::TA& A) { auto o = A.owners(); for (auto 
 inline bool hasUseless(const ref::TA& A) { auto u = ref::useful(A); for (auto q : A.states()) if (!u.count(q)) return true; return false; }
 
 }  // namespace dom
+#include "runner.hh"
+namespace dom {
+// run fn for every automaton of the domain
+inline void forEachTA(verif::Env& env, const std::string& stage, std::shared_ptr<TADomain> D,
+                      std::function<void(const ref::TA&, size_t, verif::Ctx&)> fn, uint64_t block = 256, double timeout = 10) {
+  env.noteNum(stage + ".automata", D->size()); env.noteNum(stage + ".rule_universe", D->U.size());
+  verif::ParallelOpts o; o.stage = stage; o.size = D->size(); o.block = block; o.caseTimeout = timeout;
+  o.describe = [D](uint64_t i) { return D->str(D->get(i)); };
+  o.run = [D, fn](uint64_t i, verif::Ctx& c) { fn(D->get(i), i, c); };
+  env.parallel(o);
+}
+
+}  // namespace dom
